@@ -173,6 +173,66 @@ func (e *env) directed() {
 	}
 }
 
+// directedV1: the developer-address exception belongs to siafund outputs only. A siacoin output at the old
+// developer address is spent with the unlock conditions of the NEW developer address (which do not hash to the
+// output's address), signed by that key, at a height where the exception is active.
+func (e *env) directedV1() {
+	c := e.c
+	cs := c.Tip()
+	h := cs.Index.Height + 1
+	n := c.Net.N
+	if e.directedV1Done || h+2 >= n.HardforkV2.RequireHeight || h < n.HardforkDevAddr.Height || c.DevOld == nil || c.DevNew == nil || c.DevOld.UC == nil || c.DevNew.UC == nil {
+		return
+	}
+	var src *types.SiacoinElement
+	var lock *chaingen.Lock
+	for _, id := range c.S.OrderedSC() {
+		el := c.S.SCEs[id]
+		l := c.W.Locks[el.SiacoinOutput.Address]
+		if l != nil && l.UC != nil && l.Kind != "uc-unknown-alg" && l.SpendableV1(h) && el.MaturityHeight <= h && el.SiacoinOutput.Value.Cmp(types.Siacoins(2)) > 0 {
+			ec := el.Copy()
+			src, lock = &ec, l
+			break
+		}
+	}
+	if src == nil {
+		return
+	}
+	pay := c.NewV1Spend(cs, src.ID, src.SiacoinOutput.Value, lock, c.DevOld.Addr)
+	blk, bs, err := c.BlockWith([]types.Transaction{pay}, nil)
+	if err != nil || c.Offer(blk, bs, nil) != nil {
+		return
+	}
+	e.directedV1Done = true
+	cs = c.Tip()
+	id := pay.SiacoinOutputID(0)
+	spend := func(l *chaingen.Lock) types.Block {
+		t := c.NewV1Spend(cs, id, src.SiacoinOutput.Value, l, types.VoidAddress)
+		b2, _, _ := c.EmptyBlock()
+		b2.Transactions = []types.Transaction{t}
+		return b2
+	}
+	for _, cse := range []struct {
+		key  string
+		l    *chaingen.Lock
+		must string
+	}{{"siacoin-at-the-old-developer-address-spent-by-its-own-conditions(control)", c.DevOld, "accept"}, {"siacoin-at-the-old-developer-address-spent-with-the-new-developer-address-conditions", c.DevNew, "reject"}} {
+		b2 := spend(cse.l)
+		err, _ := c.TryVariant(&b2)
+		if chaingen.IsSealFailure(err) {
+			continue
+		}
+		e.b.Eval(1)
+		e.b.Count("directed_authorization_scenarios", 1)
+		e.b.Distinct("directed", cse.key)
+		if cse.must == "reject" && err == nil {
+			e.b.Violate("C03/tamper-accepted/v1-witness/"+cse.key, "a siacoin output was spent with unlock conditions that do not hash to its address (the siafund-only developer-address exception was applied to a siacoin input)", map[string]any{"height": cs.Index.Height + 1})
+		} else if cse.must == "accept" && err != nil {
+			e.b.Inconclusive("directed scenario " + cse.key + ": control rejected: " + chaingen.NormErr(err))
+		}
+	}
+}
+
 func ensureV2Data(b *types.Block) {
 	if b.V2 == nil {
 		b.V2 = &types.V2BlockData{}
